@@ -15,6 +15,11 @@
 //	req c=<i> to=<svc> r=<id>/<script> ...  one frame with one or more requests to service <svc> (0 gate-1, k chat-k)
 //	go ms=<d>                               let d ms of virtual time pass
 //	close c=<i>                             the client closes its connection
+//	ack c=<i> [hs=1]                        the client sends one more HandshakeAck (hs=1: a whole second handshake) on its working connection
+//	lag c=<i> n=<k> ms=<d> [skip=<j>]       after j more writes, the next k writes on the client's connection each take d ms (a slow link)
+//
+// reset ... bye=1: the front has on-close callbacks (SetOnCloseHandler for even clients, AddOnSessionOnClose for odd ones) that
+// push a "left" notice (one PushMessageByIds) to the other observed clients when an observed client's session is removed.
 //	settle                                  let 2 s pass: everything under way must have arrived
 //
 // script = actions joined by ',':
@@ -28,6 +33,7 @@
 //	s<ms>         time.Sleep on the service        t<ms>c<c>x<n> timer after ms: n pushes to c
 //	w<c>x<n>      worker goroutine: n posted pushes W<c>x<n>     the same, the last post completes the request
 //	n<ms>         (back-end) make the front sleep ms inside its mailbox run
+//	u<c>          push to client c of a value the serializer rejects (NaN): travels with an empty body, its ids in the route
 //	z / Z         noise: push to an unknown session id / to an unknown front-end (no observable effect)
 //
 // observation (everything since the previous op; "-" when empty):
@@ -42,6 +48,7 @@ package c03
 import (
 	"encoding/json"
 	"fmt"
+	"math"
 	"runtime"
 	"sort"
 	"net"
@@ -120,6 +127,7 @@ type caseState struct {
 	ctr     map[[3]int]int    // (svc, thr, client) -> next counter
 	nextThr [8]int            // per service: next worker id
 	workers []string          // log names of the workers spawned in this case
+	bye     bool              // on-close callbacks of the front push a notice to the other clients
 }
 
 var cs = &caseState{ctr: map[[3]int]int{}}
@@ -281,6 +289,15 @@ func interpret(ns *service.NodeService, svc int, script string, reqClient int, c
 					posted(ns, svc, thr, reqClient, "r", cb)
 				}
 			}()
+		case 'u':
+			// a push whose value the client serializer cannot marshal (json: NaN): the framework ignores the
+			// marshal error and sends the push with an empty body; (service, client, counter) travel in the route
+			cl := atoi(a[1:])
+			if net, ok := cs.netOf(cl); ok {
+				n := cs.next(svc, 0, cl)
+				node.Record(ns.Name, fmt.Sprintf("d%d.%dp", cl, n))
+				app.PushMessageById(ns, "gate-1", net, fmt.Sprintf("u.%d.%d.%d", svc, cl, n), &Unmarshalable{X: math.NaN()})
+			}
 		case 'z':
 			// noise: a push to a session id nobody has — dropped by the front, must not disturb anything
 			app.PushMessageById(ns, "gate-1", 0xFFFFF0, "t", &Tag{S: svc, C: -1, K: "p"})
@@ -301,6 +318,48 @@ func interpret(ns *service.NodeService, svc int, script string, reqClient int, c
 type Multi struct {
 	S int   `json:"s"`
 	N []int `json:"m"`
+}
+
+// Unmarshalable is a push value encoding/json rejects.
+type Unmarshalable struct {
+	X float64 `json:"x"`
+}
+
+// onBye is the front's on-close callback (runs on the front's goroutine inside ClientSessions.RemoveSession):
+// one PushMessageByIds telling the other observed clients that this one left.
+func onBye(global bool) func(ns *service.NodeService, fs *scs.FrontSession) {
+	return func(ns *service.NodeService, fs *scs.FrontSession) {
+		cs.mu.Lock()
+		bye := cs.bye
+		nets := append([]uint32(nil), cs.nets...)
+		cs.mu.Unlock()
+		if !bye {
+			return
+		}
+		idx := -1
+		for i, id := range nets {
+			if id == fs.GetNetId() {
+				idx = i
+			}
+		}
+		if idx < 0 || (idx%2 == 0) != global {
+			return
+		}
+		tags := make([]int, len(nets))
+		var ids []uint32
+		for cl := range nets {
+			if cl == idx {
+				tags[cl] = -1
+				continue
+			}
+			tags[cl] = cs.next(0, 0, cl)
+			node.Record(ns.Name, fmt.Sprintf("d%d.%dp", cl, tags[cl]))
+			ids = append(ids, nets[cl])
+		}
+		if len(ids) > 0 {
+			app.PushMessageByIds(ns, "gate-1", ids, "t", &Multi{S: 0, N: tags})
+		}
+	}
 }
 
 // Zoo is the client-facing entry of every service type.
@@ -333,7 +392,10 @@ type world struct {
 	extra   []net.Conn // client ends of the unobserved connections
 }
 
-func (w *world) reset(nc int, slow bool, extra int) string {
+func (w *world) reset(nc int, slow bool, extra int, bye bool) string {
+	cs.mu.Lock()
+	cs.bye = false
+	cs.mu.Unlock()
 	if len(w.clients) > 0 {
 		w.n.Advance(2 * time.Second)
 	}
@@ -427,7 +489,17 @@ func (w *world) reset(nc int, slow bool, extra int) string {
 	cs.mu.Lock()
 	cs.nets = nets
 	cs.bcast = bl
+	cs.bye = bye
 	cs.mu.Unlock()
+	if bye {
+		w.n.RunOn("gate-1", func(ns *service.NodeService) {
+			for i, id := range nets {
+				if i%2 == 1 {
+					impls.AddOnSessionOnClose(ns, id, onBye(false))
+				}
+			}
+		})
+	}
 	return fmt.Sprintf("ok n=%d", nc)
 }
 
@@ -460,6 +532,16 @@ func (w *world) collect() string {
 			}
 			if m.Err {
 				items = append(items, "?")
+				continue
+			}
+			if m.Kind == "push" && strings.HasPrefix(m.Route, "u.") {
+				// a push that travelled with an empty body: ids in the route
+				f := strings.Split(m.Route, ".")
+				if len(f) != 4 || atoi(f[2]) != i || len(m.Data) != 0 {
+					items = append(items, "?")
+				} else {
+					items = append(items, fmt.Sprintf("%d.0.%dp", atoi(f[1]), atoi(f[3])))
+				}
 				continue
 			}
 			var mu Multi
@@ -514,7 +596,29 @@ func (w *world) exec(op string) string {
 		if extra > 400 {
 			return "bad-op"
 		}
-		return w.reset(nc, hx.KVInt(ws, "slow") == 1, extra)
+		return w.reset(nc, hx.KVInt(ws, "slow") == 1, extra, hx.KVInt(ws, "bye") == 1)
+	case "ack":
+		ci := hx.KVInt(ws, "c")
+		if ci >= len(w.clients) || !w.open[ci] {
+			return "bad-op"
+		}
+		if hx.KVInt(ws, "hs") == 1 {
+			w.clients[ci].Handshake()
+		}
+		w.clients[ci].Ack()
+		return w.collect()
+	case "lag":
+		ci := hx.KVInt(ws, "c")
+		if ci >= len(w.clients) || !w.open[ci] {
+			return "bad-op"
+		}
+		g, ok := w.clients[ci].(*gclient)
+		ms := hx.KVInt(ws, "ms")
+		if !ok || ms < 1 || ms > 1000 {
+			return "bad-op"
+		}
+		g.lag(hx.KVInt(ws, "skip"), hx.KVInt(ws, "n"), time.Duration(ms)*time.Millisecond)
+		return "-"
 	case "fault":
 		ci := hx.KVInt(ws, "c")
 		if ci >= len(w.clients) || !w.open[ci] {
@@ -650,6 +754,7 @@ func TestRun(t *testing.T) {
 		n := node.Start(node.Options{Services: []node.Svc{{Name: "gate-1", Type: "gate", Front: true},
 			{Name: "chat-1", Type: "chat"}, {Name: "chat-2", Type: "chat"}, {Name: "chat-3", Type: "chat"}}})
 		w := &world{n: n}
+		n.RunOn("gate-1", func(ns *service.NodeService) { n.Sessions("gate-1").SetOnCloseHandler(onBye(true)) })
 		run := func(op string) {
 			obs := hx.Guard(func() string { return w.exec(op) })
 			w.reach(h)
